@@ -249,6 +249,33 @@ func (t *translator) needStruct(name string, pi *pkgInfo, named *types.Named, st
 		}
 		fmt.Fprintf(&b, "Definition set_%s_%s (r : %s) (v : _) : %s := mk_%s %s.\n", name, fn, name, name, name, strings.Join(args, " "))
 	}
+	// X_periods_ok: every integer field (periods, day counts) is >= 1, recursively
+	var conj []string
+	for i := 0; i < st.NumFields(); i++ {
+		f := st.Field(i)
+		acc := fmt.Sprintf("(%s_%s r)", name, f.Name())
+		switch {
+		case isIntType(f.Type()):
+			conj = append(conj, "(Z.leb 1 "+acc+")")
+		default:
+			if fn := namedOf(f.Type()); fn != nil {
+				if fpi := t.pkgOf(fn.Obj()); fpi != nil {
+					switch u := fn.Underlying().(type) {
+					case *types.Struct:
+						conj = append(conj, fmt.Sprintf("(%s_%s_periods_ok %s)", fpi.prefix, fn.Obj().Name(), acc))
+					case *types.Interface:
+						for k := 0; k < u.NumMethods(); k++ {
+							if u.Method(k).Name() == "IdlePeriod" {
+								conj = append(conj, fmt.Sprintf("(Z.leb 0 (%s_%s_IdlePeriod %s))", fpi.prefix, fn.Obj().Name(), acc))
+							}
+						}
+					}
+				}
+			}
+		}
+	}
+	conj = append(conj, "true")
+	fmt.Fprintf(&b, "Definition %s_periods_ok (r : %s) : bool := %s.\n", name, name, strings.Join(conj, " && "))
 	t.addNode(&node{name: name, text: b.String(), deps: fx.deps, src: pi.suffix + "." + named.Obj().Name(), kind: "translated"})
 	return nil
 }
